@@ -83,8 +83,16 @@ class Capture(Exception):
 def seed_rules(run, db):
     """Clenshaw-derivative routines: the seed statement equals the general step at index M-jj with out-of-range rows dropped."""
     table = [(PF.PJ + 'jacobi_sum_clenshaw_der', 'M'), (Q + 'clenshaw_qbfs_der', 'M'), (Q + 'clenshaw_q2d_der', 'N')]
-    for qual, Mname in table:
+    from ..core.pattern import find
+    for qual, Mlabel in table:
         f = db.func(qual)
+        # the degree of the sum is the local bound to len(<coefficients>) - 1; the derivative-order loop is the top-level
+        # loop that contains the recurrence sweep -- whatever either is called
+        degs = [b['V_M'] for b, _ in find(f.node, 'V_M = len(E_s) - 1')]
+        outers = [n for n in f.node.body if isinstance(n, ast.For) and isinstance(n.target, ast.Name) and any(isinstance(x_, ast.For) for x_ in n.body)]
+        if len(set(degs)) != 1 or len(outers) != 1:
+            raise AnalysisError('%s: degree local (len(coefficients) - 1) or derivative-order loop not found uniquely (%s, %d loops)' % (qual, sorted(set(degs)), len(outers)))
+        Mname, JJ = degs[0], outers[0].target.id
         it, dom = PF.mk_order(db)
         R = dom.R
         captured = {}
@@ -98,7 +106,7 @@ def seed_rules(run, db):
         dom.call_prysm = call_prysm
 
         def loop(node, frame):
-            if isinstance(node, ast.For) and isinstance(node.target, ast.Name) and node.target.id == 'jj':
+            if node is outers[0]:
                 captured['node'], captured['frame'] = node, frame
                 raise Capture()
             return False
@@ -129,7 +137,7 @@ def seed_rules(run, db):
             if info and info[0] in ('min', 'builtins.min') and Rat(R.atom(aname)) == jmax and any(isinstance(x_, Rat) and x_ == Mval for x_ in info[1]):
                 bounded = True
         if not bounded:
-            guards = [st for st in outer.body if isinstance(st, ast.If) and any(isinstance(x_, (ast.Break, ast.Continue)) for x_ in st.body) and Mname in ast.unparse(st.test) and 'jj' in ast.unparse(st.test)]
+            guards = [st for st in outer.body if isinstance(st, ast.If) and any(isinstance(x_, (ast.Break, ast.Continue)) for x_ in st.body) and Mname in {x_.id for x_ in ast.walk(st.test) if isinstance(x_, ast.Name)} and JJ in {x_.id for x_ in ast.walk(st.test) if isinstance(x_, ast.Name)}]
             bounded = bool(guards)
         run.check(bounded, 'C09.seed', f.qual, 'orders beyond the degree', 'the derivative-order loop stops at min(j, %s): rows beyond the degree of the sum stay zero and no index %s - jj < 0 is formed' % (Mname, Mname),
                   'the derivative-order loop runs jj up to %s while the sum has degree %s = %s: for a single coefficient (or j above the degree) the row index %s - jj is negative -- '
@@ -149,7 +157,7 @@ def seed_rules(run, db):
             return orig_store(target, idx, val, node)
         dom.store_subscript = store_subscript
         fr.env['alphas'] = dom.sym('alphas')
-        fr.env['jj'] = dom.sym('jj')
+        fr.env[JJ] = dom.sym('jj')
         dom.lower['jj'] = 1
         it.exec_block(seed_block, fr)
         if len(stores) != 1:
@@ -387,20 +395,50 @@ def more_rules(run, db):
                       'der_direction_cosine_spheroid == d/drho (1/phi_spheroid(rho^2))', 'der_direction_cosine_spheroid = %s, but d/drho of 1/phi_spheroid is %s' % (g.key(), want.key()), fd.loc())
     # azimuthal assembly of compute_z_zprime_Q2d: the statements after the two family blocks
     f = db.func(Q + 'compute_z_zprime_Q2d')
-    loops = [n for n in walk_no_nested(f.node) if isinstance(n, ast.For) and 'a_coef' in ast.unparse(n.target)]
+    from ..core.pattern import find, match_all
+    loops = [n for n in walk_no_nested(f.node) if isinstance(n, ast.For) and isinstance(n.iter, ast.Call) and ast.unparse(n.iter.func) == 'zip'
+             and [ast.unparse(a_) for a_ in n.iter.args] == ['ams', 'bms']]
     if len(loops) != 1:
-        raise AnalysisError('compute_z_zprime_Q2d: family loop not found')
+        raise AnalysisError('compute_z_zprime_Q2d: family loop (over zip(ams, bms)) not found')
     body = loops[0].body
-    start = next((i for i, st in enumerate(body) if isinstance(st, ast.Assign) and ast.unparse(st.targets[0]) == 'um'), None)
-    if start is None:
-        raise AnalysisError('compute_z_zprime_Q2d: assembly block (um = u ** m ...) not found')
-    fn, params = block_as_function(f, body[start:], ['z', 'dr', 'dt'], 'assembly')
+    # roles, not spellings: the returned triple, the azimuthal counter, the Clenshaw tables and the (S, S') read off them
+    rb = match_all(f.node, ['return V_z, V_dr, V_dt'])
+    ctr = [n.target.id for n in body if isinstance(n, ast.AugAssign) and isinstance(n.target, ast.Name) and isinstance(n.op, ast.Add) and isinstance(n.value, ast.Constant) and n.value.value == 1]
+    tabs = [b_['V_A'] for b_, _ in find(loops[0], 'V_A = clenshaw_q2d_der(V_c, V_m, E_x)')]
+    ifs = [i_ for i_, st in enumerate(body) if isinstance(st, ast.If) and any(isinstance(x_, ast.Name) and x_.id in tabs for x_ in ast.walk(st))]
+    if rb is None or len(ctr) != 1 or len(tabs) != 2 or not ifs:
+        raise AnalysisError('compute_z_zprime_Q2d: returned triple / azimuthal counter / two Clenshaw tables / family blocks not found')
+    start = ifs[-1] + 1
+    if start >= len(body):
+        raise AnalysisError('compute_z_zprime_Q2d: no assembly statements after the family blocks')
+    Z_, DR_, DT_, M_ = rb['V_z'], rb['V_dr'], rb['V_dt'], ctr[0]
+    sums = {}
+    for fam, A_ in zip('ab', tabs):
+        s0 = [b_['V_S'] for b_, _ in find(loops[0], 'V_S = E_k * %s[0][0]' % A_)]
+        s1 = [b_['V_S'] for b_, _ in find(loops[0], 'V_S = E_k * %s[1][0]' % A_)]
+        if len(s0) != 1 or len(s1) != 1:
+            raise AnalysisError('compute_z_zprime_Q2d: the sum / derivative read off table %s not found' % A_)
+        sums[s0[0]] = 'S' + fam
+        sums[s1[0]] = 'Sprime' + fam
+    fn, params = block_as_function(f, body[start:], [Z_, DR_, DT_], 'assembly')
     it2, dom2 = PF.mk_order(db)
     R2 = dom2.R
     dom2.lower['m'] = 1
     u, t_, m_ = Rat(R2.atom('u')), Rat(R2.atom('t')), Rat(R2.atom('m'))
-    kw = {p_: dom2.sym(p_) for p_ in params}
-    kw.update({'z': Const(0), 'dr': Const(0), 'dt': Const(0), 'usq': Sym(u * u)})
+    kw = {p_: dom2.sym(sums.get(p_, p_)) for p_ in params}
+    # locals computed once from the arguments before the loop (u * u under whatever name) keep their value
+    from ..core.interp import Frame
+    it2._reset_run([])
+    fr0 = Frame(f, f.module, {a_: dom2.sym(a_) for a_ in f.params})
+    for p_ in params:
+        if p_ in f.params or p_ in sums:
+            continue
+        defs_ = [st for st in f.node.body if isinstance(st, ast.Assign) and len(st.targets) == 1 and isinstance(st.targets[0], ast.Name) and st.targets[0].id == p_]
+        if len(defs_) == 1 and {x_.id for x_ in ast.walk(defs_[0].value) if isinstance(x_, ast.Name)} <= set(f.params):
+            v_ = it2.ev(defs_[0].value, fr0)
+            if dom2.rat(v_) is not None:
+                kw[p_] = v_
+    kw.update({Z_: Const(0), DR_: Const(0), DT_: Const(0), M_: dom2.sym('m')})
     res = returns(it2.run(fn, kwargs=lambda: dict(kw)), fn)
     if len(res) != 1:
         raise AnalysisError('compute_z_zprime_Q2d assembly: %d paths' % len(res))
@@ -419,11 +457,13 @@ def more_rules(run, db):
                   'compute_z_zprime_Q2d: %s contribution is %s but d/d%s of the sag contribution %s is %s' % (nm, got.key(), var, z.key(), w.key()), f.loc(body[start]))
     # zernike_nm_der_seq: slot j holds zernike_nm_der of request j with the caller's norm
     fz = db.func(P + 'zernike.zernike_nm_der_seq')
+    from ..core.pattern import match_all
     lp = [n for n in walk_no_nested(fz.node) if isinstance(n, ast.For)]
-    ok = len(lp) == 1 and ast.unparse(lp[0].iter).replace(' ', '') == 'enumerate(nms)' and ast.unparse(lp[0].target).replace(' ', '') in ('(j,(n,m))', 'j,(n,m)')
-    if ok:
-        src = [ast.unparse(st).replace(' ', '') for st in lp[0].body]
-        ok = src in (['tmp=zernike_nm_der(n,m,r,t,norm=norm)', 'out[j]=tmp'], ['out[j]=zernike_nm_der(n,m,r,t,norm=norm)'])
+    ok = False
+    for pat in ('for V_j, (V_n, V_m) in enumerate(nms):\n    V_tmp = zernike_nm_der(V_n, V_m, r, t, norm=norm)\n    V_out[V_j] = V_tmp',
+                'for V_j, (V_n, V_m) in enumerate(nms):\n    V_out[V_j] = zernike_nm_der(V_n, V_m, r, t, norm=norm)'):
+        b_ = match_all(fz.node, [pat, 'return V_out'])
+        ok = ok or (b_ is not None and len(lp) == 1)
     run.check(ok, 'C09.id', fz.qual, 'wrapper', 'slot j holds zernike_nm_der(n_j, m_j, r, t, norm=norm)', 'zernike_nm_der_seq no longer stores zernike_nm_der(n, m, r, t, norm=norm) of request j in slot j', fz.loc())
 
 
